@@ -164,7 +164,7 @@ class InventoryBuffer(Entity):
             now_s = self.now.to_seconds()
             results.append(
                 Event(
-                    time=Instant.from_seconds(now_s + self.lead_time),
+                    time=self.now + self.lead_time,
                     event_type=_REPLENISH,
                     target=self,
                     context={"quantity": self.order_quantity},
